@@ -626,6 +626,10 @@ func (c *ctx) entryPoints(g gInfo, dst []byte) {
 				r.Fail("hash-append", "append-writes-differ", lines, fmt.Sprintf("AppendHash wrote %q, Hash wrote %q", pre, first.pre))
 			case len(d) == 0 && string(out) != res.out:
 				r.Fail("hash-append", "empty-dst", lines, fmt.Sprintf("AppendHash(nil) = %q, Hash = %q", out, res.out))
+			case len(d) != 0 && string(out) != string(d)+res.out:
+				// the documented contract of AppendHash ("appends the output string to the
+				// provided byte slice"); C20 itself only speaks about the empty destination
+				r.Fail("append-contract", "nonempty-dst", lines, fmt.Sprintf("AppendHash(%q) = %q, want dst followed by Hash = %q", d, out, res.out))
 			}
 		}
 	}
